@@ -436,6 +436,15 @@ class Topology(System):
         max_coords = len(positions)
         total = 0
         for meta_mol in self.molecules:
+            # the coordinate file lists the atoms of a molecule in the order of
+            # their index and leaves out the residues to be skipped; the atoms
+            # of one residue need not follow each other directly
+            line_of = {}
+            if resolution == 'mol':
+                index = nx.get_node_attributes(meta_mol.molecule, "index")
+                listed = [atom for atom in sorted(index, key=index.get)
+                          if meta_mol.molecule.nodes[atom]["resname"] not in skip_res]
+                line_of = {atom: total + line for line, atom in enumerate(listed)}
             for meta_node in meta_mol.nodes:
                 resname = meta_mol.nodes[meta_node]["resname"]
                 # the fragment graph nodes are not sorted so we sort them by index
@@ -443,6 +452,8 @@ class Topology(System):
                 # graph nodes are permuted with respect to the index
                 idx_nodes = nx.get_node_attributes(meta_mol.nodes[meta_node]['graph'], "index")
                 mol_nodes = sorted(idx_nodes, key=idx_nodes.get)
+                lines = [line_of[mol_node] for mol_node in mol_nodes if mol_node in line_of]
+                no_more_coords = min(lines) >= max_coords if lines else total >= max_coords
                 # residues that already got coordinates at the molecule level
                 # keep them; their entry in the meta_molecule file is skipped
                 if resolution == 'meta_mol' and not meta_mol.nodes[meta_node]["backmap"]:
@@ -451,7 +462,7 @@ class Topology(System):
                 # if the no more coordinates are available
                 # in that case we want to build the node and
                 # backmap it
-                elif resname in skip_res or total >= max_coords:
+                elif resname in skip_res or no_more_coords:
                     meta_mol.nodes[meta_node]["build"] = True
                     meta_mol.nodes[meta_node]["backmap"] = True
                 # here we only add meta_molecule coordiantes
@@ -464,13 +475,12 @@ class Topology(System):
                 # here we set molecule coordinates in that case we neither
                 # want to backmap nor build these nodes
                 else:
-                    start = total
-                    for mol_node in mol_nodes:
+                    for mol_node, line in zip(mol_nodes, lines):
                         # of the coordinates for a single residue are incomplete
                         # we raise an error because otherwise we would set them
                         # based on a non-complete residue
                         try:
-                            meta_mol.molecule.nodes[mol_node]["position"] = positions[total]
+                            meta_mol.molecule.nodes[mol_node]["position"] = positions[line]
                         except IndexError:
                             resid = meta_mol.nodes[meta_node]['resid']
                             mol_name = meta_mol.mol_name
@@ -482,7 +492,7 @@ class Topology(System):
                             raise IOError(msg) from IndexError
                         total += 1
 
-                    meta_mol.nodes[meta_node]["position"] = center_of_geometry(positions[start:total])
+                    meta_mol.nodes[meta_node]["position"] = center_of_geometry(positions[lines])
                     meta_mol.nodes[meta_node]["build"] = False
                     meta_mol.nodes[meta_node]["backmap"] = False
 
